@@ -516,21 +516,21 @@ _S = cluster_case()
 _L = cluster_case(max_n=300, max_d=8, min_n=20)
 
 CLAUSES = [
-    Clause("centers_are_frames", _S, make_run(oracle_centers_are_frames), quick=1400, thorough=14000,
+    Clause("centers_are_frames", _S, make_run(oracle_centers_are_frames), quick=1400, thorough=26000,
            doc="every reported center is the data frame found at its reported center index"),
-    Clause("distances_exact", _S, make_run(oracle_distances_exact), quick=1400, thorough=14000,
+    Clause("distances_exact", _S, make_run(oracle_distances_exact), quick=1400, thorough=26000,
            doc="every frame's reported distance equals the metric distance to the center it is assigned to"),
-    Clause("nearest_center", _S, make_run(oracle_nearest_center), quick=1400, thorough=14000,
+    Clause("nearest_center", _S, make_run(oracle_nearest_center), quick=1400, thorough=26000,
            doc="no other reported center is strictly closer to that frame"),
-    Clause("labels_in_range", _S, make_run(oracle_labels_in_range), quick=800, thorough=8000,
+    Clause("labels_in_range", _S, make_run(oracle_labels_in_range), quick=800, thorough=14000,
            doc="labels always lie in [0, number of centers)"),
-    Clause("center_self_label", _S, make_run(oracle_center_self_label), quick=1400, thorough=14000,
+    Clause("center_self_label", _S, make_run(oracle_center_self_label), quick=1400, thorough=26000,
            doc="every center frame carries its own label at distance zero"),
-    Clause("inputs_unmodified", _S, make_run(oracle_inputs_unmodified), quick=1400, thorough=14000,
+    Clause("inputs_unmodified", _S, make_run(oracle_inputs_unmodified), quick=1400, thorough=26000,
            doc="the inputs are not modified"),
     Clause("warm_start_complete", cluster_case(entries=KC_FAMILY, corner="complete"), run_all, quick=600,
-           thorough=5000, doc="all sentences, for warm starts that need no further center"),
-    Clause("all_large", _L, run_all, quick=0, thorough=2400, doc="all sentences on 20..300 frames x 1..8 dims"),
+           thorough=9000, doc="all sentences, for warm starts that need no further center"),
+    Clause("all_large", _L, run_all, quick=0, thorough=4000, doc="all sentences on 20..300 frames x 1..8 dims"),
     Clause("pam_small_exhaustive", _S, run_all, quick=0, thorough=0, exhaustive=exhaustive_small,
            doc="all sentences on every small 1-D integer configuration"),
 ]
